@@ -40,9 +40,12 @@ pub fn meta(prop: &str) -> Option<Meta> {
         "C20" => m("exploration", "bookkeeping snapshot (hook) recomputed from the model's live tree after every step of fork/discard/shared-transaction histories with upgrades; distinct = fingerprint of (tree shape, threshold, network, forks, cached tx outs)", 35.0, 600.0),
         "C06" => m("exploration", "page chains (page sizes 1..7 through the hook; 1000 in the thorough tier) started on forked histories with 0-2 events between consecutive page requests drawn from {best chain grows, competing fork grows, ancestors stabilise, the chain of the first tip is discarded, upgrade}, plus forged and random page blobs; distinct = fingerprint of (event sequence, pages, elements, tree shape)", 35.0, 600.0),
         "C08" => m("fault_enumeration", "scripted histories replayed under per-round instruction budgets (random, pause-everywhere, and for a designed small block every subset of pause positions) against an unsliced twin; full user-visible snapshot compared at every pause point with the one taken before the ingestion began; distinct = distinct (history, pause set) pairs", 45.0, 900.0),
+        "C09" => m("fault_enumeration", "(1) scripted fetch/ingest histories (heartbeats, complete/partial/rejected replies, queries, sliced ingestion budgets) on fork-free universes served by an honest adapter model, re-run with an upgrade injected before every message (and after the last): every query answer compared before/after the upgrade, the request after it must be an initial one, and the drained final state must equal the twin's without upgrade; with and without a config argument; (2) upgrades at random points of forked histories on all networks with the full snapshot compared before/after; distinct = (phase at the upgrade, argument, position)", 45.0, 900.0),
         "C10" => m("exploration", "block-source responses of 1-6 elements delivered through the real heartbeat path with one bad element (18 classes: random/empty/truncated bytes, trailing bytes, duplicates of unstable/anchor/stable blocks, orphan, child of a stable-only ancestor, future/old timestamp, wrong or excessive bits, bad PoW, bad merkle root, no coinbase, no transactions, duplicated transactions) at every position, valid blocks before and after it, and garbage announced headers; distinct = (class, position, suffix length, tree size)", 35.0, 600.0),
+        "C14" => m("exploration", "heartbeat-path histories with announced headers on the best chain, on forks, chained up to 10 deep, re-announced, followed by garbage, delivered later, going stale, passed by the stable height; at every state the full matrix 7 endpoints x api_access x 3 requested networks x disable_api_if_not_fully_synced, judged by must/may sets of announced headers; distinct = (endpoint, flags, network match, outcome, certain and possible header lead over the best height)", 35.0, 600.0),
         "C16" => m("exploration", "per-call conservation monitor on the mock cycles ledger (hook): random and default fee tables (zeros, maximum equal to base, maximum below the computed fee) x instruction counts set through the mock counter x error outcomes x attached cycles {maximum, maximum-1, more, 0}; plus the finite comparison of the client's cost_* constants with the default tables (3 networks x 5 endpoints, send_transaction lengths 0..10^6 stepped); distinct = (endpoint, charge, enough cycles, trapped, request error, instructions)", 25.0, 300.0),
         "C19" => m("exploration", "serialisations of generated legacy/segwit transactions and, for each, every truncation, 1-8 byte extensions, prefixes, two transactions back to back, every single-bit flip (small transactions), random bytes, zero-input encodings; access flag x requested network matrix; verdict compared with an own strict BIP144 parser (three-valued) and the forward log (hook); distinct = (family, verdict, allowed, length)", 25.0, 300.0),
+        "C11" => m("exploration", "(1) required-target computation (hook) on synthetic (time,bits) chains around multiples of 2016 with clamps, negative timespans and minimum-difficulty runs on three networks, compared numerically with an own GetNextWorkRequired over 256-bit integers; (2) accept/reject decisions of validate_header on PoW-valid headers (2633 real mainnet headers, harness-mined easy headers) against scripted histories that make each rule pass or fail; (3) replay of the real mainnet chain across the retarget at 588672 with field perturbations; (4) mined regtest headers end-to-end through the canister; distinct = (network, deciding rule, retarget boundary, bits)", 35.0, 600.0),
         "C12" => m("exploration", "valid regtest blocks with every transaction count 1..40 (legacy and witness-carrying) and, for each, the complete families of merkle-preserving duplications (every level with an odd group count, and compositions), adjacent swaps, single removals, coinbase moved/duplicated/absent, replaced header root; verdict of BlockValidator::validate_block and of state::insert_block compared with an own merkle/uniqueness checker over the serialised bytes; distinct = (family, tx count, resulting tx count, witness)", 30.0, 600.0),
         "C13" => m("fault_enumeration", "the harness is the scheduler at the single await point (hook): random schedules of heartbeats / replies (complete 0-3 blocks, partial with 0,1,2,3,17,255 follow-ups at arbitrary split points, rejects) / queries / upgrades over a universe of valid regtest blocks served by an honest adapter model, then a reject-free drain with a step bound; plus all op sequences up to a length bound over a 6-letter alphabet; distinct = distinct op sequences", 45.0, 900.0),
         "C07" => m("exploration", "all (start,end) pairs up to tip+2 on every state of histories (sampled when tip > 40), also at pause points of sliced ingestions and after upgrades; distinct = (class, start, last, tip, stable height, paused)", 35.0, 600.0),
@@ -61,20 +64,46 @@ fn tier_scale(ctx: &Ctx, quick: u64, thorough: u64) -> u64 {
 pub fn run(ctx: &mut Ctx) {
     let prop = ctx.prop.clone();
     match prop.as_str() {
-        "C01" | "C02" | "C03" | "C04" | "C05" | "C07" | "C15" | "C20" => lane_history(ctx),
+        "C01" | "C02" | "C03" | "C04" | "C05" | "C07" | "C15" => lane_history(ctx),
+        "C20" => {
+            let b = ctx.budget_s;
+            ctx.budget_s = b * 0.7;
+            lane_history(ctx);
+            ctx.budget_s = b;
+            crate::c14::lane_gate(ctx);
+        }
         "C06" => crate::c06::lane_pages(ctx),
         "C10" => crate::c10::lane_admit(ctx),
+        "C14" => crate::c14::lane_gate(ctx),
         "C16" => {
             crate::c16::lane_client_table(ctx);
             crate::c16::lane_cycles(ctx);
         }
         "C19" => crate::c19::lane_send(ctx),
+        "C11" => {
+            let b = ctx.budget_s;
+            ctx.budget_s = b * 0.35;
+            crate::c11::lane_numeric(ctx);
+            ctx.budget_s = b * 0.7;
+            crate::c11::lane_decisions(ctx);
+            ctx.budget_s = b * 0.85;
+            crate::c11::lane_real_chain(ctx);
+            ctx.budget_s = b;
+            crate::c10::lane_admit_headers(ctx);
+        }
         "C12" => {
             let b = ctx.budget_s;
             ctx.budget_s = b * 0.7;
             crate::c12::lane_structure(ctx);
             ctx.budget_s = b;
             crate::c12::lane_structure_canister(ctx);
+        }
+        "C09" => {
+            let b = ctx.budget_s;
+            ctx.budget_s = b * 0.6;
+            crate::sched::lane_upgrade_points(ctx);
+            ctx.budget_s = b;
+            lane_history_upgrades(ctx);
         }
         "C13" => {
             let b = ctx.budget_s;
@@ -214,6 +243,78 @@ fn lane_history(ctx: &mut Ctx) {
                 }
             } else {
                 ctx.inconclusive(format!("history abandoned: {}", d));
+            }
+        }
+    }
+}
+
+/// C09, second workload: upgrades at random points of forked histories (all paths and networks):
+/// every query answer before == after.
+fn lane_history_upgrades(ctx: &mut Ctx) {
+    use crate::snap::{self, SnapOpts};
+    let max_cases = tier_scale(ctx, 100_000, 10_000_000);
+    let thorough = ctx.tier == Tier::Thorough;
+    for k in ctx.cases("histup", max_cases) {
+        if !ctx.time_left() {
+            break;
+        }
+        ctx.begin("histup", k);
+        let mut rng = Rng::derive(&[ctx.seed, fp_str("histup"), k]);
+        let (cfg, stratum) = stratum_cfg(k, &mut rng, thorough);
+        ctx.cov.count(&format!("stratum_{}", stratum));
+        let steps = rng.range(6, 24);
+        let mut h = Hist::new(cfg, rng);
+        for _ in 0..steps {
+            if !h.step(ctx) || !ctx.time_left() {
+                break;
+            }
+            if h.rng.chance(1, 3) {
+                let o = SnapOpts { with_fees: true, with_utxos_length: false, max_c: 64 };
+                let before = snap::snapshot(&h, &o);
+                let ul_before = crate::world::info().ok().map(|i| i.utxos_length).unwrap_or(0);
+                let deltas: i64 = {
+                    let bk = crate::world::bookkeeping();
+                    let best = h.model.best_chains()[0].clone();
+                    bk.tree
+                        .iter()
+                        .filter(|n| {
+                            let mut a = [0u8; 32];
+                            a.copy_from_slice(n.0.as_bytes());
+                            best.contains(&a)
+                        })
+                        .map(|n| n.4)
+                        .sum()
+                };
+                if !h.upgrade(ctx) {
+                    break;
+                }
+                let after = snap::snapshot(&h, &o);
+                ctx.cov.count("c09_before_after_snapshots_compared");
+                ctx.cov.count("c09_upgrade_in_phase_forked_history");
+                ctx.cov.eval(Some(mon::state_fp(&h, "c09")));
+                if let Some(d) = snap::diff(&before, &after) {
+                    ctx.violation(
+                        format!("a query answer changed across pre_upgrade/post_upgrade: {}", d),
+                        None,
+                        serde_json::json!({"log": h.log}),
+                    );
+                    break;
+                }
+                let ul_after = crate::world::info().ok().map(|i| i.utxos_length).unwrap_or(0);
+                if ul_after != ul_before {
+                    let stable_len = ic_btc_canister::with_state(|s| s.utxos.utxos_len_without_ingesting_block());
+                    let _ = deltas;
+                    let sig = if ul_after == stable_len {
+                        Some("C09:utxos_length-loses-unstable-deltas-across-upgrade".to_string())
+                    } else {
+                        None
+                    };
+                    ctx.violation(
+                        format!("get_blockchain_info.utxos_length changed across an upgrade: {} -> {}", ul_before, ul_after),
+                        sig,
+                        serde_json::json!({"log": h.log}),
+                    );
+                }
             }
         }
     }
